@@ -310,15 +310,75 @@ pub fn wide_tcase() -> BoxedStrategy<TCase> {
     }))
 }
 
+/// Filter texts at the edges of the literal grammar that the tree generator does not build (leap seconds, repeated
+/// hours, '_' and signs in exponents, upper-case hex escapes, line breaks inside paths). For each: if it parses, its
+/// printed form must parse to the same tree, and print the same again.
+const EDGE_FILTERS: &[&str] = &[
+    "t == 23:59:60", "t < 23:59:60.5", "ts >= 2016-12-31T23:59:60Z", "ts == 2016-12-31T23:59:60Z UTC", "ts == 2016-12-31T18:59:60-05:00 New_York",
+    "ts == 2021-11-07T01:30:00-05:00 New_York", "ts == 2021-11-07T01:30:00-04:00 New_York", "ts == 2021-10-31T01:30:00Z London", "ts > 1971-06-01T11:15:00-00:45 Monrovia",
+    "n == 1e+5", "n == 1E-5kW", "n == 1e1_0", "n == 1_000.5_5", "n == -0", "n == 5e-324", "n == 1.7976931348623157e308", "n == 9223372036854775808",
+    "s == \"\\u00E9\\u20AC\"", "s == \"\\uD83D\\uDE00\"", "u == `a\\`b`", "r == @a \"Caf\\u00e9\"", "a->b\n->c", "a->b->c\n  and d", "not a->b\n->c->d == 1",
+    "d == 2000-02-29", "d == 0000-01-01", "d == 9999-12-31", "c == ^a:b-c.d~e", "( ( a ) )", "a and b or c and d", "a  or\tb",
+];
+
+fn edge_filters(ctx: &mut Ctx) {
+    for (i, text) in EDGE_FILTERS.iter().enumerate() {
+        ctx.rec.evals += 1;
+        let r = guarded(|| -> Verdict {
+            let Ok(f1) = Filter::try_from(*text) else { return Verdict::Pass };
+            let p1 = f1.to_string();
+            let f2 = match Filter::try_from(p1.as_str()) {
+                Ok(f) => f,
+                Err(e) => return Verdict::fail("C08:edge:printed-text-rejected", format!("`{text}` parses and prints as `{p1}`, which does not parse: {e}")),
+            };
+            if let Err(why) = same_tree(&from_lib_or(&f1.or), &from_lib_or(&f2.or), true) {
+                return Verdict::fail("C08:edge:tree-differs", format!("`{text}` -> `{p1}` parses to a different tree: {why}"));
+            }
+            let p2 = f2.to_string();
+            if p2 != p1 {
+                return Verdict::fail("C08:edge:print-not-stable", format!("`{text}` prints as `{p1}` and then as `{p2}`"));
+            }
+            Verdict::Pass
+        });
+        let v = match r {
+            Ok(v) => v,
+            Err(p) => Verdict::fail(format!("C08:edge:{}", panic_sig(&p)), p.msg),
+        };
+        let accepted = Filter::try_from(*text).is_ok();
+        ctx.rec.class(if accepted { "edge-filter:accepted" } else { "edge-filter:rejected" });
+        if accepted {
+            ctx.rec.nontrivial(key_of(&format!("edge:{i}")));
+        }
+        ctx.report("edge-filter", v, serde_json::json!({"text": text}));
+    }
+}
+
 pub fn run(ctx: &mut Ctx) {
-    ctx.rule("generated: filter trees with all term kinds (has, not, six comparisons, *==, ^symbol, relationship), literals of every kind the syntax admits (strings with escapes, numbers with units, dates, times, timestamps with zones, refs with display names, uris, symbols, booleans), paths of 1-4 segments, names other than the keywords; oracles: (1) Filter::try_from(t.to_string()) equals t structurally (literals strictly: Ref dis and zone checked; *==/relation refs by id since Display omits dis), (2) the reference printer's text with random legal spacing and line breaks parses to exactly t (precedence, grouping, where a path ends), (3) a second print-parse round gives the same tree, (4) a Visitor sees the nodes of t in order, (5) each case first has up to three damaged prefixes of its text parsed (and rejected) on the same thread - a failed parse must not influence the next one; non-trivial: >= 2 terms or a multi-segment path or a literal needing escape/unit/zone/dis; distinct by text; a second generator makes *wide* filters: 2-1100 sibling terms, about half of them parenthesised groups, joined by or / and / both / inside one group");
+    ctx.rule("generated: filter trees with all term kinds (has, not, six comparisons, *==, ^symbol, relationship), literals of every kind the syntax admits (strings with escapes, numbers with units, dates, times, timestamps with zones, refs with display names, uris, symbols, booleans), paths of 1-4 segments, names other than the keywords; oracles: (1) Filter::try_from(t.to_string()) equals t structurally (literals strictly: Ref dis and zone checked; *==/relation refs by id since Display omits dis), (2) the reference printer's text with random legal spacing and line breaks parses to exactly t (precedence, grouping, where a path ends), (3) a second print-parse round gives the same tree, (4) a Visitor sees the nodes of t in order, (5) each case first has up to three damaged prefixes of its text parsed (and rejected) on the same thread - a failed parse must not influence the next one; non-trivial: >= 2 terms or a multi-segment path or a literal needing escape/unit/zone/dis; distinct by text; a table of ~30 edge texts (leap seconds, repeated hours, exponent spellings, upper-case escapes, line breaks inside paths) must survive print-parse where accepted; a second generator makes *wide* filters: 2-1100 sibling terms, about half of them parenthesised groups, joined by or / and / both / inside one group");
     let depth = ctx.tier.pick(2, 3) as u32;
     ctx.run_sub::<TCase>("print-parse", ctx.tier.pick(80_000, 1_600_000), &move || tcase(depth), &check_case);
+    edge_filters(ctx);
     ctx.run_sub::<TCase>("print-parse-wide", ctx.tier.pick(1_600, 32_000), &wide_tcase, &check_case);
 }
 
 pub fn replay(kind: &str, case: &J, rec: &mut Rec) -> Verdict {
     match kind {
+        "edge-filter" => {
+            let text = case["text"].as_str().unwrap_or("").to_string();
+            match Filter::try_from(text.as_str()) {
+                Err(_) => Verdict::Pass,
+                Ok(f1) => {
+                    let p1 = f1.to_string();
+                    match Filter::try_from(p1.as_str()) {
+                        Ok(f2) => match same_tree(&from_lib_or(&f1.or), &from_lib_or(&f2.or), true) {
+                            Ok(()) => Verdict::Pass,
+                            Err(why) => Verdict::fail("C08:edge:tree-differs", why),
+                        },
+                        Err(e) => Verdict::fail("C08:edge:printed-text-rejected", format!("`{text}` -> `{p1}`: {e}")),
+                    }
+                }
+            }
+        }
         "print-parse" | "print-parse-wide" => TCase::from_json(case).map(|c| check_case(&c, rec)).unwrap_or_else(|e| Verdict::fail("infra:bad-replay", e)),
         _ => Verdict::fail("infra:unknown-kind", kind),
     }
